@@ -10,7 +10,8 @@ if [ -n "$(git status --porcelain)" ]; then echo "REPO NOT CLEAN"; exit 9; fi
 restore() { cd /repo; git checkout -- . ; rm -f zz_demo_test.go; git clean -fdq -e mutants >/dev/null 2>&1; }
 trap restore EXIT
 demo=$(ls $md/*_test.go 2>/dev/null | head -1)
-rundemo() { cp "$demo" /repo/zz_demo_test.go; (cd /repo && timeout 300 go test -vet=off -count=1 -run 'Demo|Mutant|Seeded' . </dev/null >/tmp/demo.out 2>&1); rc=$?; rm -f /repo/zz_demo_test.go; return $rc; }
+pat=$(grep -oh 'func Test[A-Za-z0-9_]*' "$demo" 2>/dev/null | sed 's/func //' | paste -sd'|')
+rundemo() { cp "$demo" /repo/zz_demo_test.go; (cd /repo && timeout 600 go test -vet=off -count=1 -run "^($pat)\$" . </dev/null >/tmp/demo.out 2>&1); rc=$?; rm -f /repo/zz_demo_test.go; return $rc; }
 if [ -n "$demo" ]; then rundemo; echo "demo on clean tree: rc=$? (want 0)"; fi
 git apply "$md/patch.diff" || { echo "PATCH DOES NOT APPLY"; exit 8; }
 timeout 600 go build ./... </dev/null || echo "BUILD FAILS"
